@@ -18,6 +18,7 @@ ESC = '\x1b'
 LINES = {
     'chatter': 'hello [world] (x=1) "q"',
     'chatter_esc': 'app says \x1b[31mred\x1b[0m',
+    'chatter_esc_open': 'app warns \x1b[33myellow and never resets',
     'illformed': '[7000010.000]  -> zz_q@77.foo(1, "s", nil, fd 3, array[2], 1.50000000, new id zz_r@78, zz_q@79, -3)',
     'dup_new': '[7000011.000] <1>  -> wl_compositor@3.create_surface(new id wl_surface@4)',
     'unknown_arg': '[7000012.000] <1>  -> wl_surface@4.frobnicate(what?, 12x)',
@@ -34,7 +35,8 @@ SCRIPT_START = 24      # universe lines before this index are the fixed prelude
 
 
 def events(tier):
-    evs = [['next'], ['line', 'chatter'], ['line', 'illformed'], ['line', 'chatter_esc'], ['line', 'dup_new'], ['line', 'unknown_arg']]
+    evs = [['next'], ['line', 'chatter'], ['line', 'illformed'], ['line', 'chatter_esc'], ['line', 'dup_new'], ['line', 'unknown_arg'],
+           ['line', 'chatter_esc_open']]
     cmds = COMMANDS if tier != 'quick' else COMMANDS
     return evs + [['cmd', c] for c in cmds]
 
@@ -102,7 +104,7 @@ class Pair:
             if sx != sy:
                 diffs.append((what, x, y))
         nesc = sum(l.count(ESC) for l in b[0] + b[1] + b[2])
-        if nesc > 0 and text.count(ESC) == 0:     # sequences present in the input may pass through
+        if nesc > text.count(ESC):     # sequences present in the input may pass through; the tool adds none of its own
             diffs.append(('escape_when_off', None, [l for l in b[0] + b[1] + b[2] if ESC in l][:3]))
         return diffs
 
